@@ -491,3 +491,55 @@ Theorem C03_node_count_canonical_size_bcdd_examples :
   canon_size_bcdd 3 (fun _ => false) = 1%N.
 Proof. exact ex_canon_size_bcdd. Qed.
 Print Assumptions C03_node_count_canonical_size_bcdd_examples.
+
+(* ZBDD: sub-families (levels above L fixed) instead of subfunctions; a node sits at level L iff some member
+   of the sub-family contains L; Base is reachable iff the family is non-empty, Empty iff the family is empty
+   or some node's else-part is *)
+From OxiVerif Require Import DD.BuildCanonSizeZbdd.
+Theorem C03_node_count_canonical_size_zbdd : forall s, ZbddOK s -> forall r f,
+  levels_only (nlevels s) f -> ZDen s r (PZ f 0 (nlevels s) (fun _ => 0)) ->
+  count_reach s (E r) = canon_size_zbdd (nlevels s) f.
+Proof. exact zbdd_count_is_canon_size. Qed.
+Print Assumptions C03_node_count_canonical_size_zbdd.
+
+Theorem C03_node_count_canonical_size_zbdd_edge : forall s e, ZbddOK s -> ref_ok s (eref e) ->
+  count_reach s e = canon_size_zbdd (nlevels s) (cfun_of s e).
+Proof. exact zbdd_node_count_canon_size. Qed.
+Print Assumptions C03_node_count_canonical_size_zbdd_edge.
+
+Theorem C03_node_count_canonical_size_zbdd_build : forall v2l l2v f, order_ok v2l l2v ->
+  levels_only (length l2v) f ->
+  exists s e, build_zbdd v2l l2v f = Some (s, e) /\ ZbddOK s /\
+    count_reach s e = canon_size_zbdd (length l2v) f.
+Proof. exact build_zbdd_canon_size. Qed.
+Print Assumptions C03_node_count_canonical_size_zbdd_build.
+
+Theorem C03_node_count_canonical_zbdd_reachable_is_sub : forall s, ZbddOK s -> forall r f,
+  levels_only (nlevels s) f -> ZDen s r (PZ f 0 (nlevels s) (fun _ => 0)) ->
+  forall x, reachable s (r :: nil) x ->
+  exists p, bchoice p /\ ZDen s x (Q s f (rlevel s x) p).
+Proof. exact zreachable_is_sub. Qed.
+Print Assumptions C03_node_count_canonical_zbdd_reachable_is_sub.
+
+Theorem C03_node_count_canonical_zbdd_sub_is_reachable : forall s, ZbddOK s -> forall r f,
+  levels_only (nlevels s) f -> ZDen s r (PZ f 0 (nlevels s) (fun _ => 0)) ->
+  forall L p, L <= nlevels s -> bchoice p -> (exists S0, Q s f L p S0) ->
+  exists x, reachable s (r :: nil) x /\ ZDen s x (Q s f L p) /\ L <= rlevel s x.
+Proof. exact zsub_is_reachable. Qed.
+Print Assumptions C03_node_count_canonical_zbdd_sub_is_reachable.
+
+Theorem C03_node_count_canonical_zbdd_sub_level_iff : forall s, ZbddOK s -> forall f L p x,
+  L < nlevels s -> ZDen s x (Q s f L p) ->
+  (rlevel s x = L <-> exists T, Qc s f L p 0 T).
+Proof. exact zsub_level_iff. Qed.
+Print Assumptions C03_node_count_canonical_zbdd_sub_level_iff.
+
+Theorem C03_node_count_canonical_size_zbdd_examples :
+  canon_size_zbdd (nlevels ex_zbdd) (cfun_of ex_zbdd (ex_edge (RN 2))) = 4%N /\
+  count_reach ex_zbdd (ex_edge (RN 2)) = 4%N /\
+  canon_size_zbdd 4 (lvl_fun (0 :: 1 :: 2 :: 3 :: nil) (fun a => orb (andb (a 0) (a 1)) (andb (a 2) (a 3)))) = 9%N /\
+  canon_size_zbdd 4 (lvl_fun (0 :: 2 :: 1 :: 3 :: nil) (fun a => orb (andb (a 0) (a 1)) (andb (a 2) (a 3)))) = 10%N /\
+  canon_size_zbdd 3 (fun _ => false) = 1%N /\
+  canon_size_zbdd 3 (fun c => andb (andb (Nat.eqb (c 0) 1) (Nat.eqb (c 1) 1)) (Nat.eqb (c 2) 1)) = 1%N.
+Proof. exact ex_canon_size_zbdd. Qed.
+Print Assumptions C03_node_count_canonical_size_zbdd_examples.
